@@ -2,6 +2,7 @@ package disk
 
 import (
 	"errors"
+	"strings"
 
 	"github.com/diskfs/go-diskfs/filesystem"
 	"github.com/diskfs/go-diskfs/filesystem/fat12"
@@ -116,9 +117,10 @@ func VP_C12_magic_squashfs_not_fat() {
 func c12Scenario(typ filesystem.Type, lbs, size, start int64, label string, useGpt bool) {
 	devSize := start + size + 64*lbs // room for a backup GPT behind the partition
 	dev := vpdev.NewMemDev("disk", devSize)
-	// bytes the creator does not write are arbitrary (stale content of whatever was there before);
-	// the 4Kn GPT case is kept concrete (blank) because of KF-C12-4
-	dev.UF = !(useGpt && lbs != 512)
+	// whole-disk cases: bytes the creator does not write are arbitrary (stale content of whatever
+	// was there before); with a partition table the rest of the disk is blank (an arbitrary LBA 1
+	// would make the table probe itself the subject, see table_probe_*)
+	dev.UF = start == 0
 	var tbl partition.Table
 	part := 0
 	if start > 0 {
@@ -152,6 +154,7 @@ func c12Scenario(typ filesystem.Type, lbs, size, start int64, label string, useG
 		vp.Assert(t2.Type() == tbl.Type(), "the table is reported as the kind that was written")
 	}
 	got, err := d2.GetFilesystem(part)
+	vp.Cover("freshly opened disk probed")
 	known := useGpt && lbs != 512 // KF-C12-4
 	vp.AssertUnless("KF-C12-4", known, err == nil, "GetFilesystem finds a filesystem where one was created")
 	if err != nil {
@@ -159,6 +162,9 @@ func c12Scenario(typ filesystem.Type, lbs, size, start int64, label string, useG
 		return
 	}
 	vp.Assert(got.Type() == typ, "GetFilesystem reports the type that was created")
+	if label != "" {
+		vp.Assert(strings.TrimRight(got.Label(), " ") == label, "the label survives")
+	}
 	vp.Assert(len(dev.Log) == n, "probing does not write")
 	vp.Cover("created and recognised")
 }
@@ -180,5 +186,5 @@ func VP_C12_scenario_fat32_small() {
 	c12Scenario(filesystem.TypeFat32, 512, 128*1024, 0, "VOL32", false)
 }
 func VP_C12_scenario_fat32_4k_gptpart() {
-	c12Scenario(filesystem.TypeFat32, 4096, 1<<20, 1<<20, "", true)
+	c12Scenario(filesystem.TypeFat32, 4096, 256*1024, 64*1024, "", true)
 }
